@@ -3,6 +3,7 @@ package props
 import (
 	"go/ast"
 	"go/token"
+	"go/types"
 
 	"verifcheck/core"
 )
@@ -246,6 +247,16 @@ func ruleUseLoadedBalanced(c *Ctx, m *schedModel, rule string) {
 				return 0
 			}
 			l, ok := ast.Unparen(gs.Call.Fun).(*ast.FuncLit)
+			if !ok {
+				// a named closure: notify := func() {…}; go notify()
+				if id, isId := ast.Unparen(gs.Call.Fun).(*ast.Ident); isId {
+					if v, isV := info.Uses[id].(*types.Var); isV {
+						if rhs, _, cnt := singleDef(info, f.Body, v); cnt == 1 && rhs != nil {
+							l, ok = ast.Unparen(rhs).(*ast.FuncLit)
+						}
+					}
+				}
+			}
 			if !ok {
 				return 0
 			}
